@@ -4,9 +4,12 @@ use crate::engine::{Runtime, Stage, Tier};
 pub mod common;
 pub mod c01;
 pub mod c02;
+pub mod c04;
+pub mod c05;
 pub mod c06;
 pub mod c07;
 pub mod c08;
+pub mod c09;
 pub mod c10;
 pub mod c13;
 pub mod c14;
@@ -26,9 +29,12 @@ pub fn lookup(id: &str) -> Option<PropDef> {
     Some(match id {
         "C01" => c01::def(),
         "C02" => c02::def(),
+        "C04" => c04::def(),
+        "C05" => c05::def(),
         "C06" => c06::def(),
         "C07" => c07::def(),
         "C08" => c08::def(),
+        "C09" => c09::def(),
         "C10" => c10::def(),
         "C13" => c13::def(),
         "C14" => c14::def(),
